@@ -3,7 +3,9 @@
    wires the subset, renders it (Nested.render_nodes, attributes unfolded |path| deep) and
    evaluates the path over the rendering (QueryRef.eval_json) and over the tree
    (QueryRef.eval_ref); prints the common answer, "REFDIFF ..." if the two differ,
-   "nonsimple" for a path with a descendant step (outside the references). *)
+   the descendant steps of a path are evaluated by the search over the rendering
+   (QueryRef.jdesc; values directly and nodes-then-values must agree); "nonwf" for a
+   separator other than / . >. *)
 open Common
 
 let chars_of_string (s : string) : BinNums.coq_N list =
@@ -23,12 +25,15 @@ let cmd_queryref args =
      | Base.Err e -> "parse-" ^ err_string e
      | Base.Ok p ->
        let cs = p.PathParser.p_comps in
-       if not (QueryRef.simple_path cs) then "nonsimple" else
+       if not (QueryRef.wf_path cs) then "nonwf" else
        (match Wire.wire ndesc vals links t with
         | Base.Err e -> "wire-" ^ err_string e
         | Base.Ok (nodes, st) ->
           let lab = SL.map chars_of_string labels_a in
-          let k = nat_of_int (SL.length cs) in
+          (* attributes unfolded |path| deep for child/attribute paths; a descendant search needs the
+             rendering saturated: the attribute relation has at most |attrs| links on a chain *)
+          let simple = QueryRef.simple_path cs in
+          let k = nat_of_int (if simple then SL.length cs else SL.length cs + SL.length st.Wire.x_attrs + 1) in
           let js = Nested.render_nodes st.Wire.x_attrs (fun _ -> false) vals k nodes in
           let rec sv (v : Query.vres) = match v with
             | Query.VIdx i -> string_of_int (int_of_n i)
@@ -37,8 +42,9 @@ let cmd_queryref args =
             | Base.Err e -> err_string e
             | Base.Ok vs -> "ok [" ^ String.concat "," (SL.map sv vs) ^ "]" in
           let a = show (QueryRef.eval_json lab js cs) in
-          let b = show (QueryRef.eval_ref st.Wire.x_attrs lab nodes cs) in
-          if a = b then a else "REFDIFF json=" ^ a ^ " tree=" ^ b))
+          let n = show (QueryRef.eval_json_nodes lab js cs) in
+          let b = if simple then show (QueryRef.eval_ref st.Wire.x_attrs lab nodes cs) else a in
+          if a = b && a = n then a else "REFDIFF json=" ^ a ^ " nodes=" ^ n ^ " tree=" ^ b))
   | _ -> failwith "queryref"
 
 let () = Common.register "queryref" cmd_queryref
